@@ -191,6 +191,10 @@ class ParticleSwarmSampler(BaseSampler):
         existing_losses: NDArray[np.float64],
     ) -> NDArray[np.float64]:
         """Sample a batch of parameters."""
+        if self.is_set_up and len(existing_points) == 0:
+            # the initial positions were proposed but never evaluated (e.g. the first batch failed): start over
+            self.reset()
+
         if not self.is_set_up:
             self._set_up(search_space.dims)
             self._previous_batch_index_start = len(existing_points)
